@@ -24,6 +24,11 @@ def run(it):
     checks = claimed if ('--all-checks' in args or it['expect'] == 'neg') else [it['expect']] if it['expect'] in claimed else []
     if '--all-checks' not in args and it['expect'] != 'neg':
         checks = sorted(set(checks + [c for c in claimed]))  # always run all: cross-detection is recorded
+    if '--full' not in args:
+        # C08 and C19 (90-100 s each) depend only on the codec, the bitmap event and the GUI painter: skipped for patches that touch none of them
+        touched = set(re.findall(r'^\+\+\+ [^/\s]*/(\S+)', open(it['patch']).read(), re.M))
+        slow = {'C08': ('src/codec/rle.rs', 'src/core/event.rs'), 'C19': ('src/codec/rle.rs', 'src/core/event.rs', 'src/bin/mstsc-rs.rs')}
+        checks = [c for c in checks if c not in slow or c == it['expect'] or touched & set(slow[c])]
     r = subprocess.run([V + '/bin/try_patch.sh', it['patch']] + checks, capture_output=True, text=True)
     out = r.stdout
     res = {}
